@@ -80,6 +80,123 @@ PROPS['C19'] = dict(
                   'extractor lib/rustcut.py + lib/verusgen.py (rewrites logged in rewrites_applied)'],
 )
 
+SEXPR_FN = ['parser/src/cfg/sexpr.rs <SExpr as Debug>::fmt']
+PROPS['C03'] = dict(
+    level='other',
+    level_text=('Minimal scope. Kani (CBMC) harnesses on the real parser crate for the diagnostics layer only: impl Debug for SExpr '
+                '(bounded: 8 concrete tree shapes up to 2 levels, incl. the empty list) and Position::new / Span::new / Span::cover '
+                '(complete over all usize positions of one file). Lexer, list builder and every parse_* function are NOT covered '
+                '(measured out of reach of both verifiers), so totality of parsing itself is not decided.'),
+    level_note=('Decides one clause of the statement ("rendering the diagnostic does not crash", s-expression part) and the span arithmetic; '
+                'nothing else. Trusted: rustc, Kani 0.68 + CBMC 6.11, one-line-patched backtrace crate so the parser crate compiles under Kani.'),
+    technique='contract harnesses (Kani/CBMC) on the real crate: postconditions asserted for symbolic positions (complete) and for a fixed set of tree shapes (bounded)',
+    design_ref='DESIGN.md section 4, C03',
+    explanation=('Debug for SExpr: no panic, balanced parentheses, one pair per list, single-space separation, exact length, for the listed tree shapes. '
+                 'Span::cover: smallest covering span, internal asserts never fire for positions of one file.'),
+    verus=[],
+    kani=[
+        H('parser', 'cfg::sexpr', 'c03_b_debug_shape_empty', kind='bounded', bound='tree ()', functions=SEXPR_FN),
+        H('parser', 'cfg::sexpr', 'c03_b_debug_shape_a', kind='bounded', bound='tree (a)', functions=SEXPR_FN),
+        H('parser', 'cfg::sexpr', 'c03_b_debug_shape_ab', kind='bounded', bound='tree (a b)'),
+        H('parser', 'cfg::sexpr', 'c03_b_debug_shape_abc', kind='bounded', bound='tree (a b c)'),
+        H('parser', 'cfg::sexpr', 'c03_b_debug_shape_nested_empty', kind='bounded', bound='tree (())'),
+        H('parser', 'cfg::sexpr', 'c03_b_debug_shape_a_empty', kind='bounded', bound='tree (a ())'),
+        H('parser', 'cfg::sexpr', 'c03_b_debug_shape_empty_a', kind='bounded', bound='tree (() a)'),
+        H('parser', 'cfg::sexpr', 'c03_b_debug_shape_nested', kind='bounded', bound='tree ((b c) a)'),
+        H('parser', 'cfg::sexpr', 'c03_b_debug_neg', kind='bounded', expect='fail', covers='must-fail twin'),
+        H('parser', 'cfg::sexpr', 'c03_k_span_cover', kind='complete', covers='all usize position quadruples of one file',
+          functions=['parser/src/cfg/sexpr.rs Position::new', 'parser/src/cfg/sexpr.rs Span::new', 'parser/src/cfg/sexpr.rs Span::cover']),
+        H('parser', 'cfg::sexpr', 'c03_k_span_cover_neg', kind='complete', expect='fail', covers='must-fail twin: without same-file ordering the assert fires'),
+    ],
+    assumptions=[
+        'NOT decided: totality and termination of the lexer, the list builder, every parse_* function, includes, templates, defvar recursion, miette rendering',
+        'symbolic tree shapes exhaust CBMC memory through core::fmt (measured: 15-20 min, then failure); the Debug claim is for the listed shapes only',
+        'positions handed to Span::new / cover come from one file (offsets and line numbers ordered alike)',
+    ],
+    trusted_base=['rustc', 'Kani 0.68.0 / CBMC 6.11.0 / CaDiCaL', 'vendored backtrace 0.3.74 with one `use` line narrowed (tooling only, not on a verified path)'],
+)
+
+L = 'keyberon/src/layout.rs '
+PROPS['C06'] = dict(
+    level='other',
+    level_text=('Bounded contract check (Kani/CBMC) of the three OneShotState methods on the real crate: the full postcondition and frame of '
+                'handle_press / handle_release / tick_osh for every state whose tables hold <= 3 coordinates (capacity 16; the wrap of a full '
+                'table is a separate harness), all four end variants, all u16 timeouts/delays. Bounded stand-in, not a proof; the call sites '
+                'in Layout::do_action / dequeue are not under contract.'),
+    level_note='Trusted: rustc, Kani 0.68 + CBMC 6.11. Not decided: that every non-one-shot action calls handle_press(Other); the deferred release path through dequeue; stacking through Layout.',
+    technique='contract harnesses (Kani/CBMC): symbolic pre-state, postcondition + frame asserted, must-fail twin, bound-attained covers',
+    design_ref='DESIGN.md section 4, C06',
+    explanation='OneShotState::{handle_press, handle_release, tick_osh}: postconditions taken from the property statement (press variants end within the rapid-event delay; release variants end on the release of the first following key; pcancel on re-press; held one-shot acts as plain key; expiry clears everything so nothing later is affected).',
+    verus=[],
+    kani=[
+        H('keyberon', 'layout', 'c06_b_press_other', kind='bounded', bound='each table <= 3 coordinates', functions=[L + 'OneShotState::handle_press']),
+        H('keyberon', 'layout', 'c06_b_press_oneshot_key', kind='bounded', bound='each table <= 3 coordinates'),
+        H('keyberon', 'layout', 'c06_b_release', kind='bounded', bound='each table <= 3 coordinates', functions=[L + 'OneShotState::handle_release']),
+        H('keyberon', 'layout', 'c06_b_release_overflow', kind='bounded', bound='full table of 16 + 1 push'),
+        H('keyberon', 'layout', 'c06_b_tick', kind='bounded', bound='each table <= 3 coordinates', functions=[L + 'OneShotState::tick_osh']),
+        H('keyberon', 'layout', 'c06_b_expires_on_time', kind='bounded', bound='timeouts 1..=6'),
+        H('keyberon', 'layout', 'c06_b_press_other_neg', kind='bounded', expect='fail', covers='must-fail twin'),
+    ],
+    assumptions=[
+        'call sites in Layout::do_action (handle_press(Other) on every non-one-shot action) and Layout::dequeue are NOT under contract',
+        'tables with more than 3 entries are covered only by the overflow harness',
+    ],
+    trusted_base=['rustc', 'Kani 0.68.0 / CBMC 6.11.0 / CaDiCaL', 'arraydeque 0.5.1 and heapless 0.7 are compiled and symbolically executed, not assumed'],
+)
+
+PROPS['C05'] = dict(
+    level='other',
+    level_text=('Bounded contract check (Kani/CBMC) of the tap-hold decision on the real crate: WaitingState::handle_hold_tap and tick_wt (HoldTap arm) '
+                'against the decision table of the property statement for the three built-in variants, every clock value, and every queue of <= 4 '
+                'events over 3 keys; plus "fires exactly at the H-th tick" for H <= 6. Bounded stand-in; the execution of the decision '
+                '(waiting_into_*, replay of buffered keys) is not under contract.'),
+    level_note='Trusted: rustc, Kani + CBMC. Not decided: waiting_into_hold/tap/timeout consume the state once and replay buffered keys in order; repress window; extra_waiting; custom closures (separate, parser crate).',
+    technique='contract harnesses (Kani/CBMC): symbolic waiting state + symbolic bounded queue, decision oracle from the statement, frame, must-fail twin',
+    design_ref='DESIGN.md section 4, C05',
+    explanation='handle_hold_tap: at most one of Tap/Hold/Timeout, never NoOp; Tap iff own release queued before the timeout elapsed; Timeout exactly when it elapses; early Hold on other press (press variant) / other press+release (release variant); queue and clock untouched.',
+    verus=[],
+    kani=[
+        H('keyberon', 'layout', 'c05_b_handle_hold_tap', kind='bounded', bound='queue <= 4 events over 3 keys', functions=[L + 'WaitingState::handle_hold_tap']),
+        H('keyberon', 'layout', 'c05_b_tick_wt_hold_tap', kind='bounded', bound='queue <= 4 events over 3 keys', functions=[L + 'WaitingState::tick_wt (HoldTap arm)']),
+        H('keyberon', 'layout', 'c05_b_timeout_on_time', kind='bounded', bound='H in 1..=6, empty queue'),
+        H('keyberon', 'layout', 'c05_k_last_press_tracker', kind='complete', functions=[L + 'LastPressTracker::tick_lpt', L + 'LastPressTracker::update_coord']),
+        H('keyberon', 'layout', 'c05_b_handle_hold_tap_neg', kind='bounded', expect='fail', covers='must-fail twin'),
+    ],
+    assumptions=[
+        'decision only: waiting_into_hold / waiting_into_tap / waiting_into_timeout and the replay of buffered keys run Layout::do_action and are NOT under contract',
+        'queues longer than 4 events are not explored',
+    ],
+    trusted_base=['rustc', 'Kani 0.68.0 / CBMC 6.11.0 / CaDiCaL'],
+)
+
+K = 'parser/src/keys/'
+PROPS['C11'] = dict(
+    level='proof',
+    level_text=('Complete proofs. Kani/CBMC loop-free harnesses over EVERY u16 code for the OsCode/KeyCode conversions (including the two transmutes, '
+                'with valid-value checks), Verus for: the two enum discriminant lists read from source are both exactly 0..=767 (by computation), and '
+                'the output filter write_key/press_key/release_key never emits the reserved codes and routes mouse codes (unbounded, extracted text).'),
+    level_note=('Trusted: rustc, Kani+CBMC, Verus+Z3, extractor. Assumed: KbdOut methods and post_filter_* append one log entry (external). Not decided: str_to_oscode / '
+                'custom names, mapped-key set construction in the parser, the Linux event loop use of MAPPED_KEYS.'),
+    technique='contract-based: Kani full-domain harnesses (complete) + Verus contracts on extracted output filter + generated discriminant VC',
+    design_ref='DESIGN.md section 4, C11',
+    explanation='from_u16/as_u16/From impls round-trip for all 65536 codes; known-code set pinned to 0..=748 and 767; transmutes construct no invalid value for 0..=767; discriminant lists equal 0..=767; output filter contract.',
+    verus=[dict(unit='keys')],
+    kani=[
+        H('parser', 'keys', 'c11_k_code_roundtrip', kind='complete', covers='all 65536 u16 codes', functions=[K + 'mod.rs OsCode::from_u16', K + 'mod.rs OsCode::as_u16', K + 'linux.rs OsCode::from_u16_linux', K + 'linux.rs OsCode::as_u16_linux', K + 'mappings.rs From<KeyCode> for OsCode', K + 'mappings.rs From<OsCode> for KeyCode']),
+        H('parser', 'keys', 'c11_k_known_codes', kind='complete', covers='all 65536 u16 codes'),
+        H('parser', 'keys', 'c11_k_ignored_range_known', kind='complete'),
+        H('parser', 'keys', 'c11_k_int_conversions', kind='complete', functions=[K + 'mod.rs TryFrom<usize>/From<u32>/From<u16> for OsCode']),
+        H('parser', 'keys', 'c11_k_transmute_valid', kind='complete', flags=['valid-value-checks'], covers='all codes 0..=767, UB check on'),
+        H('parser', 'keys', 'c11_k_transmute_valid_neg', kind='complete', flags=['valid-value-checks'], expect='fail', covers='must-fail twin: 768'),
+    ],
+    assumptions=[
+        'KbdOut::{write_key, click_btn, release_btn, scroll} and post_filter_press/release are assumed to emit exactly one output each (external_body)',
+        'str_to_oscode and custom deflocalkeys names, the mapped-key set construction and its use by the Linux event loop are NOT decided',
+        'only target_os = "linux" arms',
+    ],
+    trusted_base=['rustc', 'Kani 0.68.0 / CBMC 6.11.0', 'Verus 0.2026.09.13 / Z3 (by(compute_only) for the discriminant lists)', 'vendored backtrace one-line patch (tooling only)'],
+)
+
 
 def find_harness(name):
     for p in PROPS.values():
